@@ -22,6 +22,7 @@ CONSTANTS MinStages, MaxStages,   \* number of stages explored: MinStages..MaxSt
           GridPos,        \* set of naturals: the numeric weights a package may give (ten-thousandths)
           GridNeg,        \* set of naturals whose negations are also given (a cfg file cannot hold -1)
           UseSpecial,     \* TRUE: a weight may also be missing or malformed
+          Restarts,       \* TRUE: the experiment may be (re)started from any stage: the earlier stages count as finished
           Emit            \* TRUE: print every (given, weights) case as JSON for the conformance driver
 
 Grid == GridPos \cup {-x : x \in GridNeg}
@@ -32,6 +33,7 @@ Malformed == 999992
 Special == {Missing, Malformed}
 
 VARIABLES n,        \* number of stages
+          start,    \* the stage the controller starts from (1 = from the beginning; > 1 = `elaunch --restart`)
           given,    \* [1..n -> Grid \cup Special]
           w,        \* [1..n -> Int]  normalised weights (only meaningful when loaded)
           loaded,
@@ -39,7 +41,7 @@ VARIABLES n,        \* number of stages
           prog,     \* [1..n -> 0..4] completed quarter of the stage's components
           mon,      \* the status monitor's CheckStatus in progress: [pc, cur, T, F, s0, a]
           reported  \* the total progress CheckStatus last wrote to the status file, in 1/(4*Unit); -1 before the first
-vars == <<n, given, w, loaded, st, prog, mon, reported>>
+vars == <<n, start, given, w, loaded, st, prog, mon, reported>>
 
 RECURSIVE SumTo(_, _)
 SumTo(f, k) == IF k = 0 THEN 0 ELSE f[k] + SumTo(f, k - 1)
@@ -73,6 +75,7 @@ TruncAccepts(g, k) == Sum([i \in 1..k |-> Trunc(Num(g[i]))], k) = 1000
 MonIdle == [pc |-> "idle", cur |-> 0, T |-> {}, F |-> {}, s0 |-> <<>>, a |-> <<"none", 0>>]
 
 Init == /\ n \in MinStages..MaxStages
+        /\ start \in (IF Restarts THEN 1..n ELSE {1})
         /\ given \in [1..n -> IF UseSpecial THEN Grid \cup Special ELSE Grid]
         /\ w = [i \in 1..n |-> 0]
         /\ loaded = FALSE
@@ -88,45 +91,45 @@ MonQuiet == mon.pc = "idle" \/ mon.a = <<"none", 0>>
 Load == /\ ~loaded /\ ~Rejected(given, n)
         /\ loaded' = TRUE
         /\ w' = Normalise(given, n)
-        /\ st' = [st EXCEPT ![1] = "active"]
-        /\ UNCHANGED <<n, given, prog, mon, reported>>
+        /\ st' = [i \in 1..n |-> IF i < start THEN "finished" ELSE IF i = start THEN "active" ELSE "pending"]   \* Controller.initialise
+        /\ UNCHANGED <<n, start, given, prog, mon, reported>>
 
 (* a component of an active / in-transit stage finishes *)
 Advance(i) == /\ i <= n /\ loaded /\ MonQuiet /\ st[i] \in {"active", "transit"} /\ prog[i] < 4
               /\ prog' = [prog EXCEPT ![i] = @ + 1]
               /\ mon' = Note(<<"Advance", i>>)
-              /\ UNCHANGED <<n, given, w, loaded, st, reported>>
+              /\ UNCHANGED <<n, start, given, w, loaded, st, reported>>
 
 (* the controller moves on to stage i+1; stage i either is finished or stays in transit *)
 NextStage(i, how) == /\ i <= n /\ loaded /\ MonQuiet /\ st[i] = "active" /\ i < n /\ st[i + 1] = "pending"
                      /\ how \in {"finished", "transit"}
                      /\ st' = [st EXCEPT ![i] = how, ![i + 1] = "active"]
                      /\ mon' = Note(<<"NextStage" \o how, i>>)
-                     /\ UNCHANGED <<n, given, w, loaded, prog, reported>>
+                     /\ UNCHANGED <<n, start, given, w, loaded, prog, reported>>
 
 Finish(i) == /\ i <= n /\ loaded /\ MonQuiet
              /\ \/ st[i] = "transit"
                 \/ st[i] = "active" /\ i = n
              /\ st' = [st EXCEPT ![i] = "finished"]
              /\ mon' = Note(<<"Finish", i>>)
-             /\ UNCHANGED <<n, given, w, loaded, prog, reported>>
+             /\ UNCHANGED <<n, start, given, w, loaded, prog, reported>>
 
 Current == IF \E i \in 1..n : st[i] = "active" THEN CHOOSE i \in 1..n : st[i] = "active" ELSE n
 Quarter(i) == IF st[i] = "finished" THEN 4 ELSE prog[i]          \* Controller.get_stage_status: finished components / all
 
 MonBegin == /\ loaded /\ mon.pc = "idle"
             /\ mon' = [pc |-> "begun", cur |-> Current, T |-> {}, F |-> {}, s0 |-> <<st, prog>>, a |-> <<"none", 0>>]
-            /\ UNCHANGED <<n, given, w, loaded, st, prog, reported>>
+            /\ UNCHANGED <<n, start, given, w, loaded, st, prog, reported>>
 MonSnap ==  /\ mon.pc = "begun"
             /\ mon' = [mon EXCEPT !.pc = "snapped",
                                    !.T = {i \in 1..n : st[i] \in {"active", "transit"}} \ {mon.cur},
                                    !.F = {i \in 1..n : st[i] = "finished"} \ {mon.cur}]
-            /\ UNCHANGED <<n, given, w, loaded, st, prog, reported>>
+            /\ UNCHANGED <<n, start, given, w, loaded, st, prog, reported>>
 MonSum ==   /\ mon.pc = "snapped"
             /\ reported' = Sum([i \in 1..n |-> IF i = mon.cur \/ i \in mon.T THEN Quarter(i) * w[i]
                                                 ELSE IF i \in mon.F THEN 4 * w[i] ELSE 0], n)
             /\ mon' = [mon EXCEPT !.pc = "idle"]
-            /\ UNCHANGED <<n, given, w, loaded, st, prog>>
+            /\ UNCHANGED <<n, start, given, w, loaded, st, prog>>
 
 Next == \/ Load
         \/ MonBegin \/ MonSnap \/ MonSum
@@ -175,9 +178,9 @@ EmitUsable == (Emit /\ ~loaded /\ Usable(given, n)) =>
                              truncAccepts |-> TruncAccepts(given, n), rejected |-> FALSE, usable |-> TRUE]))
 (* one record per completed CheckStatus: where it began, what the controller did meanwhile, what it reported *)
 EmitReport == (Emit /\ loaded /\ mon.pc = "idle" /\ reported # -1 /\ mon.s0 # <<>>) =>
-              PrintT(ToJson([n |-> n, given |-> [i \in 1..n |-> given[i]], w |-> w, st0 |-> mon.s0[1], prog0 |-> mon.s0[2],
+              PrintT(ToJson([n |-> n, start |-> start, given |-> [i \in 1..n |-> given[i]], w |-> w, st0 |-> mon.s0[1], prog0 |-> mon.s0[2],
                              act |-> mon.a[1], arg |-> mon.a[2], reported |-> reported]))
 EmitState == (Emit /\ loaded /\ mon.pc = "idle") =>
-              PrintT(ToJson([n |-> n, given |-> [i \in 1..n |-> given[i]], w |-> w,
+              PrintT(ToJson([n |-> n, start |-> start, given |-> [i \in 1..n |-> given[i]], w |-> w,
                              st |-> st, prog |-> prog, total |-> Total]))
 =============================================================================
